@@ -129,40 +129,47 @@ Definition wait_cancelled (cfg : ccfg) (w : Z) : bool :=
   match cc_patience cfg with Some p => p <=? w | None => false end.
 
 (* the loop of Connect, one iteration per script step; None = the script is used up and Connect
-   has not returned *)
-Fixpoint connect_loop (cfg : ccfg) (b : backoff) (s : cstate) (script : list step) : list titem * option cret :=
+   has not returned.  Third component: the Connection as the call leaves it (what a later Connect
+   call on the same Connection finds - lastEventID, isRetry, the request's header and body; the
+   backoff controller in it is dead, every call makes its own) *)
+Fixpoint connect_loop_st (cfg : ccfg) (b : backoff) (s : cstate) (script : list step)
+  : list titem * option cret * cstate :=
   match reset_request (cc_body cfg) s with
-  | inr e => ([], Some (RConn RsReset e))
+  | inr e => ([], Some (RConn RsReset e), s)   (* resetRequestBody failed: nothing was assigned *)
   | inl s1 =>
       match script with
-      | [] => ([], None)
+      | [] => ([], None, s1)
       | st :: rest =>
           let req := TRequest (cs_hdr s1) (cs_body s1) in
           (* what follows a retryable attempt end (Connect, client_connection.go:215-224) *)
           let retry := fun (s2 : cstate) (items : list titem) (err : cret) =>
             let '(c', ans) := bc_next b (cs_bc s2) (st_elapsed st) (st_u st) in
             match ans with
-            | None => (req :: items, Some err)
+            | None => (req :: items, Some err, s2)
             | Some w =>
                 let items' := req :: items ++ (if cc_on_retry cfg then [TOnRetry err w] else []) in
-                if wait_cancelled cfg w then (items', Some RCtx)
-                else let '(tr, r) := connect_loop cfg b (cs_with_bc s2 c') rest in (items' ++ tr, r)
+                if wait_cancelled cfg w then (items', Some RCtx, cs_with_bc s2 c')
+                else let '(tr, r, s') := connect_loop_st cfg b (cs_with_bc s2 c') rest in (items' ++ tr, r, s')
             end in
           match st_attempt st with
           | ATransportErr e => retry s1 [] (RConn RsConnect (CE (EReader e)))
-          | ACtxErr => ([req], Some RCtx)
-          | ARejected e => ([req], Some (RConn RsValidate (CE (EReader e))))
+          | ACtxErr => ([req], Some RCtx, s1)
+          | ARejected e => ([req], Some (RConn RsValidate (CE (EReader e))), s1)
           | AStream body en =>
               let s2 := cs_with_bc s1 (bc_reset b (cs_bc s1) 0) in
               let '(s3, items, x) := read_stream b s2 (interp gosse_conn (cs_last_id s2) body en) in
               match x with
-              | None => (req :: items, Some RNil)   (* read returned nil: errors.Is(nil, ctx.Err()) holds for a live context *)
-              | Some e => if is_ctx e then (req :: items, Some RCtx)
+              | None => (req :: items, Some RNil, s3)   (* read returned nil: errors.Is(nil, ctx.Err()) holds for a live context *)
+              | Some e => if is_ctx e then (req :: items, Some RCtx, s3)
                           else retry s3 items (RConn RsLost (CE e))
               end
           end
       end
   end.
+
+(* trace and return value of one Connect call *)
+Definition connect_loop (cfg : ccfg) (b : backoff) (s : cstate) (script : list step) : list titem * option cret :=
+  fst (connect_loop_st cfg b s script).
 
 Definition connect_init (cfg : ccfg) (b : backoff) : cstate :=
   mkcs [] false (cc_header cfg)
@@ -172,6 +179,35 @@ Definition connect_init (cfg : ccfg) (b : backoff) : cstate :=
 Definition connect_run (cfg : ccfg) (script : list step) : list titem * option cret :=
   if cc_cancel_before cfg then ([], Some RCtx)
   else let b := merge_defaults (cc_backoff cfg) in connect_loop cfg b (connect_init cfg b) script.
+
+(* ---- the same Connection connected again ------------------------------------------------------------
+   Connect may return for a reason other than the context (retries exhausted; MaxRetries < 0, so that
+   every call makes one attempt and the application loops itself; a validator or body-reset error) and be
+   called again on the same *Connection.  What the new call finds is what the last one left on the
+   Connection - lastEventID, isRetry (so its FIRST request is reset like any retry: body re-obtained, header
+   set from lastEventID), the request - except the backoff controller, which every call makes anew
+   (client_connection.go:198: interval = InitialInterval, no retries counted; a retry value the server sent
+   during an earlier call is forgotten). *)
+Definition call_state (b : backoff) (s : cstate) : cstate := cs_with_bc s (bc_new b).
+
+(* is Connect called again?  Not after it returned the context's error (the context is done: nothing more
+   would be requested) and not when the script ran out (the harness ends the run) *)
+Definition calls_on (r : option cret) : bool :=
+  match r with Some RCtx | None => false | Some _ => true end.
+
+(* one script per call *)
+Fixpoint connect_calls (cfg : ccfg) (b : backoff) (s : cstate) (scripts : list (list step))
+  : list (list titem * option cret) :=
+  match scripts with
+  | [] => []
+  | sc :: rest =>
+      let '(tr, r, s') := connect_loop_st cfg b (call_state b s) sc in
+      (tr, r) :: (if calls_on r then connect_calls cfg b s' rest else [])
+  end.
+
+Definition connect_runs (cfg : ccfg) (scripts : list (list step)) : list (list titem * option cret) :=
+  if cc_cancel_before cfg then (match scripts with [] => [] | _ => [([], Some RCtx)] end)
+  else let b := merge_defaults (cc_backoff cfg) in connect_calls cfg b (connect_init cfg b) scripts.
 
 (* ---- projections of a trace -------------------------------------------------------------------- *)
 Definition requests (tr : list titem) : list (option bytes * option nat) :=
